@@ -28,19 +28,40 @@ def candidates(rng, n):
     for k in range(n):
         base.append(SC.sample_def(rng, 0, nmax=6, default_ok=False, perr=False))
     for E in base:
+        fieldless = E["generics"] == "none" and all(v["kind"] == "unit" for v in E["variants"])
         for perr in (True, False):
-            E2 = copy.deepcopy(E)
-            E2["id"], E2["name"], E2["perr"] = did, "E%d" % did, perr
-            cands.append(E2)
-            did += 1
+            for phf in ((False, True) if fieldless else (False,)):
+                E2 = copy.deepcopy(E)
+                E2["id"], E2["name"], E2["perr"], E2["phf"] = did, "E%d" % did, perr, phf
+                # the error type / function may be written relative to the enum itself
+                E2["perr_form"] = (did % 3) if perr else 0
+                cands.append(E2)
+                did += 1
     return cands
+
+
+def module(E):
+    """perr_form 1: parse_err_fn = Self::make_err (an inherent function); 2: generic error type mentioning the enum's own parameter"""
+    from .. import strgen as SG, defs as D
+    src = SG.parse_module(E)
+    form = E.get("perr_form", 0)
+    if form == 1:
+        src = src.replace("parse_err_fn = user_err", "parse_err_fn = Self::make_err")
+        g = D.GENERICS[E["generics"]]
+        tg = {"none": "", "ty": "<T>", "tywhere": "<T>", "lt": "<'a>", "const": "<N>", "tyconst": "<T, N>"}[E["generics"]]
+        src += "impl%s %s%s%s { pub fn make_err(s: &str) -> UserErr { user_err(s) } }\n" % (g["decl"], E["name"], tg, g.get("where", ""))
+    elif form == 2 and E["generics"] in ("ty", "tywhere"):
+        src = src.replace("parse_err_ty = UserErr", "parse_err_ty = GenErr<T>").replace("parse_err_fn = user_err", "parse_err_fn = gen_err")
+        src = src.replace("parse_batch::<%s, UserErr>" % D.inst(E), "parse_batch::<%s, GenErr<u16>>" % D.inst(E))
+    return src
 
 
 def run(tier, seed, rep):
     sz = SIZES[tier]
     rng = random.Random(seed * 67867967 + 13)
     r = PC.run_parse_check(PROP, "c18", rep, candidates(rng, sz["sample"]), rng, seed, sz["cap"], sz["flips"],
-                           lambda: model(tier), what="parse error differs from f(exact rejected input)")
+                           lambda: model(tier), what="parse error differs from f(exact rejected input)", module_fn=module,
+                           features=("derive", "phf"))
     rej = sum(1 for e in r["events"] if e["op"] == "parse" for x in e["res"] if x["k"] in ("ue", "nf"))
     rep.cov["rejected_inputs"] = rej
     rep.cov["rule"] = ("default-free definitions of C01's corpus, each built twice (parse_err_ty/parse_err_fn vs standard error); the user "
